@@ -871,7 +871,7 @@ bool topSweep(long idx, Batch& b, Rng& r)
 }
 
 // one batch per payload kind x {aggregated, segmented}, mixed type patterns, the 65535-byte payloads
-constexpr long kKindCases = K_COUNT * 2 + 8;
+constexpr long kKindCases = K_COUNT * 2 + 8 + 10;
 void kindCase(long idx, Batch& b, Rng& r)
 {
     if (idx < K_COUNT * 2)
@@ -896,6 +896,23 @@ void kindCase(long idx, Batch& b, Rng& r)
     }
     long j = idx - K_COUNT * 2;
     b.cfg.max = 120;
+    if (j >= 8)
+    {
+        // hundreds / thousands of tiny packets: frames with more than 255 / 4095 messages, batches with more than 65535 payload bytes
+        static const size_t counts[] = {256, 300, 1000, 4100, 70000 / 17};
+        static const size_t maxes[] = {65559, 8 + 300 * 17, 1500, 65559, 40000};
+        size_t n = counts[(j - 8) % 5];
+        b.cfg.max = maxes[(j - 8) % 5];
+        b.cfg.min = (j % 2) ? 64 : 0;
+        for (size_t i = 0; i < n; ++i)
+        {
+            PktDesc d = genPkt(r, (j - 8) / 5 ? K_GEN_STATUS : K_GEN_DATA, 1, 3);
+            d.payload = Bytes(1 + i % 3, static_cast<uint8_t>(i));
+            b.pkts.push_back(std::move(d));
+        }
+        b.overload = static_cast<int>(j % 3);
+        return;
+    }
     switch (j)
     {
         case 0:  // data, status, data
@@ -947,7 +964,7 @@ struct Plan
     }
 };
 
-constexpr long kHistDetSpecial = 5;
+constexpr long kHistDetSpecial = 6;
 constexpr long kHistDetPairs = 12 * 12;
 
 Plan plan(const Ctx& c)
@@ -1105,6 +1122,15 @@ std::vector<Op> detHistory(long j, Rng& r)
                     enc(e);
                 }
                 enc(smallBatch(r));
+                break;
+            case 5:  // many encode calls on one encoder (more than 256, more than 4096): small batches, one config
+                for (int i = 0; i < 4200; ++i)
+                {
+                    Batch sb = smallBatch(r, 1 + static_cast<size_t>(i % 3));
+                    if (i % 97 == 0)
+                        sb.pkts[0] = genPkt(r, K_GEN_DATA, 300, 1);  // now and then a segmented one
+                    enc(std::move(sb));
+                }
                 break;
             default:  // set* with the value already configured still resets
                 cfg(0, 5, 0);
